@@ -13,7 +13,7 @@ from fractions import Fraction
 from engine import term as T, agg, build, vg, ordd, poly as P, polycheck as PC
 from engine.agg import ELEM, TU
 from engine.report import HOLDS, VIOLATED, UNDECIDED
-from .common import Analysed, fn_where, joint, explain_diff
+from .common import Analysed, fn_where, joint, explain_diff, narrowing
 
 HDR = agg.HEADER + '''#include <ImathBox.h>
 #include <ImathBoxAlgo.h>
@@ -596,6 +596,7 @@ def main(rep, ws, tier):
             both = [(i, st[i], st.get(i.replace(a, b))) for i in st if i.startswith(a + '::')]
             ok = all(x == HOLDS and y == HOLDS for _, x, y in both)
             rep.ob('%s == %s' % (a, b), 'R13.spec', HOLDS if ok else VIOLATED, '%d members each decided against the same specification' % len(both) if ok else 'members that differ: %s' % [i for i, x, y in both if not (x == HOLDS and y == HOLDS)], nontrivial=False)
+    narrowing(rep, ws, [gen(k, 'd') for k in ('B2', 'B3', 'G2', 'G3', 'G4', 'I')] + [gen_tx('d')], 'R13.prec')
     rep.floor('Box/Interval member instances', sum(1 for o in rep.obs if o['rule'] in ('R13.ord', 'R13.const', 'R13.alg')), 100)
     rep.assumptions += ['NaN-free operands (total order)', 'exact real arithmetic in R13.arvo / center']
     rep.undecided_clauses += ['NaN operands', 'floating-point rounding inside transform (the bound is tight over the reals)', 'closestPointOnBox for points outside the box goes through closestPointInBox (clip), decided separately']
